@@ -29,6 +29,7 @@ DOC = {
     "evaluate_on": dict(n_simulations=100, max_steps=INF_STEPS),
     "GridWorld": dict(feature_rewards=None, absorbing_features=("g",), wall_features=("#",), default_features=(".",),
                       initial_features=("s",), step_cost=-1, success_prob=1.0, discount_rate=1.0),
+    "WindyGridWorld": dict(feature_rewards=None, step_cost=-1, wall_bump_cost=-1, wind_probability=0.5, discount_rate=0.99),
     "TabularGridGame": dict(goal_reward=10, collision_cost=0, step_cost=-1, fence_success_prob=0.5, collision_prob=None),
 }
 
@@ -39,6 +40,10 @@ ATTR = {
     ("LRTDP", "max_trial_length"): None,  # None is stored as float('inf')
     ("FSCBoundedPolicyIteration", "seed"): None,   # None means "draw one": the constructor stores the drawn seed
     ("FSCGradientAscent", "seed"): None,
+    ("GridWorld", "feature_rewards"): None, ("GridWorld", "absorbing_features"): None, ("GridWorld", "wall_features"): None,
+    ("GridWorld", "default_features"): None, ("GridWorld", "initial_features"): None,
+    ("WindyGridWorld", "feature_rewards"): None,
+    ("PlanToSubgoalOption", "name"): None,
 }
 
 
